@@ -103,6 +103,9 @@ APIS = {
     'cast-partial': lambda c: fdl.cast(fdl.Partial, c),
     'cast-config': lambda c: fdl.cast(fdl.Config, c),
     'copy_with': lambda c: fdl.copy_with(c, s3=5),
+    # an override that carries a tag, for arguments that are already tagged in the input
+    'copy_with-tagged-override': lambda c: fdl.copy_with(c, s1=H.T2.new(5), s2=H.T1.new(6)),
+    'deepcopy_with-tagged-override': lambda c: fdl.deepcopy_with(c, s1=H.T2.new(5), s2=H.T1.new(6)),
     'deepcopy_with': lambda c: fdl.deepcopy_with(c, s3=5),
     'materialize_tags': tagging.materialize_tags,
     'materialize_tags-some': lambda c: tagging.materialize_tags(c, tags={H.T0}),
@@ -127,6 +130,10 @@ APIS = {
     'structure': visualize.structure,
     'trim_fields_to': lambda c: visualize.trim_fields_to(c, ['s1']),
     'trim_long_fields': lambda c: visualize.trim_long_fields(c, 10),
+    # thresholds at the boundary: the long leaf is long by repr() only
+    'trim_long_fields-boundary': lambda c: visualize.trim_long_fields(c, len(LONG)),
+    'trim_long_fields-boundary+1': lambda c: visualize.trim_long_fields(c, len(LONG) + 1),
+    'graphviz-render-strlen-boundary': lambda c: fdl_graphviz.render(c, max_str_length=len(LONG)).source,
     'unintern_tuples_of_literals': transform.unintern_tuples_of_literals,
     'replace_unconfigured_partials_with_callables':
         transform.replace_unconfigured_partials_with_callables,
